@@ -33,9 +33,13 @@
 (*   is refused by the outgoing limit and the manager reports nothing;     *)
 (*   since that commit the refusal is a DialFailure, i.e. DialFail).       *)
 (*                                                                         *)
-(* Known-defect paths set a tag in kf (as in ConnMgrMC); the invariants    *)
-(* are stated for behaviours that took none of them, and the `Fixed`       *)
-(* constant models the repaired code.                                      *)
+(* Defect paths of the code before /repo commit f6b26d6 (an Err of         *)
+(* open_substream_or_dial ignored in the send phase; the open-substream    *)
+(* error branch of on_connection_established reporting FIND_NODE actions   *)
+(* only) set a tag in kf (as in ConnMgrMC) when their tag is not in        *)
+(* `Fixed`.  The checked configuration is Fixed = AllTags (the code as it  *)
+(* is now) with the strict invariants; Fixed = {} is the negative          *)
+(* configuration of the self-test.                                         *)
 (***************************************************************************)
 EXTENDS KadOps, FiniteSetsExt, Json
 
